@@ -83,8 +83,18 @@ def run(ctx):
                "(peak_size_dfs {n} {s} {t}, multiplicity {n} {s}))))))").format(n=netl, s=sll, t=tl)
         rhs = coq((rows, leafrows, Z(stats["flops"]), Z(stats["write"]), Z(stats["size"]), Z(peak), Z(mult)))
         cases.append(("case%d" % ci, lhs, rhs))
+        # peak for an arbitrary (random callable) traversal order: model fold vs implementation
+        oscore = {}
+        ofn = lambda nd: oscore.setdefault(nd, rng.random())
+        olit = "[" + "; ".join("(%s, %s)" % ("true" if len(p_) == tree.N else "false",
+                                              tree_lit(gen.tree_nested(tree, p_)))
+                                for p_, _, _ in tree.traverse(ofn)) + "]"
+        cases.append(("peakorder%d" % ci, "peak_size_order %s %s %s %s" % (netl, sll, tl, olit),
+                      coq(Z(tree.peak_size(ofn)))))
+        records.append({"inputs": inputs, "output": output, "size_dict": size_dict, "path": path, "removed": sl,
+                        "note": "peak under a random traversal order"})
         rec = {"inputs": inputs, "output": output, "size_dict": size_dict, "path": path, "removed": sl}
-        records.append(rec)
+        records.insert(len(records) - 1, rec)
         ctx.case((inputs, output, tuple(sorted(size_dict.items())), path, tuple(sl)),
                  nontrivial=len(inputs) >= 3 and bool(feats & {"hyper", "repeat", "out_shared", "leaf_only"} or sl),
                  sample=rec if ci < 3 else None)
